@@ -76,6 +76,10 @@ def go_test(ctx, pkg, run, env=None, timeout=600, tags="verif", race=False):
     e.update(GOENV)
     e["VERIF_SEED"] = str(ctx.seed)
     e["VERIF_TIER"] = ctx.tier
+    gotmp = os.path.join(ctx.scratch, "gotmp")
+    os.makedirs(gotmp, exist_ok=True)
+    e["GOTMPDIR"] = gotmp
+    e["TMPDIR"] = gotmp
     if env:
         e.update({k: str(v) for k, v in env.items()})
     cmd = ["go", "test", "-count=1", "-tags", tags, "-run", run, "-timeout", "%ds" % timeout]
@@ -129,7 +133,9 @@ def tlc(ctx, module, cfg, files=(), workers=None, timeout=600, extra=(), dfs=Fal
     for f in files:
         shutil.copy(f, d)
     w = workers or NCPU
-    jopts = ["-XX:+UseParallelGC", "-Xss64m"]
+    jtmp = os.path.join(d, "jtmp")
+    os.makedirs(jtmp, exist_ok=True)
+    jopts = ["-XX:+UseParallelGC", "-Xss64m", "-Djava.io.tmpdir=" + jtmp]
     if dfs:
         jopts.append("-Dtlc2.tool.queue.IStateQueue=StateDeque")
     cmd = ["java"] + jopts + ["-cp", TLA_JAR, "tlc2.TLC", "-workers", str(w), "-metadir",
